@@ -285,7 +285,10 @@ def _helper_facts(chk, ctx) -> None:
             'starts from the generic order': bool(m.assigns(ipo.node, 'super()._get_ordered_players(s, final_seat, parsed_blinds_or_straddles, players, seats)')),
             'keeps the two blinds': bool(m.full_assigns(ipo.node, 'players', 'players[:2]')),
             'then everybody in the order of his first action': bool(m.calls(ipo.node, 'players.append(player)')) and bool(m.full_assigns(ipo.node, 'player', "m['player']")),
-            'lines without a player are skipped, the scan stops at the first repeated player': bool(m.when(ipo.node, 'player is None')) and any(
+            'lines without a player are skipped, the scan stops at the first repeated player': any(
+                any(isinstance(x, ast.Continue) for x in yes) or (not yes and any(isinstance(c, ast.Call) and isinstance(c.func, ast.Attribute) and c.func.attr == 'append'
+                                                                              for st in no for c in ast.walk(st)))
+                for yes, no in m.when(ipo.node, 'player is None')) and any(
                 any(isinstance(x, ast.Break) for x in yes) for yes, no in m.when(ipo.node, 'player in players')),
             'per line the player starts unknown': bool(m.full_assigns(ipo.node, 'player', 'None')),
         }, 'iPoker logs carry no seat order: after the blinds, players are ordered by their first action')
